@@ -79,3 +79,46 @@ func PrivKey(d *big.Int) *secec.PrivateKey {
 	}
 	return k
 }
+
+// EncodingsSurviveCallerWrites takes every encoding of p, overwrites the returned slices (they belong to the
+// caller) and takes the encodings again: they must be what they were.  An encoding that can be changed by writing
+// into an earlier result depends on the history of calls, not on the point.  Returns "" or a description.
+func EncodingsSurviveCallerWrites(p *secp256k1.Point) string {
+	type enc struct {
+		name string
+		f    func() []byte
+	}
+	encs := []enc{
+		{"UncompressedBytes", p.UncompressedBytes},
+		{"CompressedBytes", p.CompressedBytes},
+		{"XBytes", func() []byte { b, _ := p.XBytes(); return b }},
+	}
+	for _, e := range encs {
+		first := e.f()
+		snap := append([]byte(nil), first...)
+		for i := range first {
+			first[i] ^= 0xa5 + byte(i)
+		}
+		first = append(first[:0], 0x02, 0x03, 0x04)[:0] // writes through spare capacity too
+		for _, e2 := range encs {
+			_ = e2.f()
+		}
+		again := e.f()
+		if string(again) != string(snap) {
+			return e.name + ": " + hexs(snap) + " became " + hexs(again) + " after the caller overwrote the slice returned by the earlier call"
+		}
+		for i := range again {
+			again[i] = 0
+		}
+	}
+	return ""
+}
+
+func hexs(b []byte) string {
+	const d = "0123456789abcdef"
+	o := make([]byte, 0, 2*len(b))
+	for _, c := range b {
+		o = append(o, d[c>>4], d[c&15])
+	}
+	return string(o)
+}
